@@ -1172,7 +1172,9 @@ impl Scenario for Out {
             let a = self.app.borrow();
             for j in parked {
                 let q2 = matches!(self.cfg.senders[j], SK::Q2Rel | SK::Q2Drop | SK::Q2Hold);
-                if a[j].handle.is_some() && (!q2 || _q) {
+                // with the write side blocked an encoded PUBLISH may sit in the write buffer: not on the wire yet,
+                // but the exchange has begun
+                if a[j].handle.is_some() && (!q2 || (_q && self.window_open)) {
                     v.push(Ev::Cancel(j as u8));
                 }
             }
